@@ -436,10 +436,69 @@ def rule_ftrl(ctx):
         ns = [(y["op"] if y.get("k") == "AssignOp" else "=", mentions(y["r"]), y) for y in writes if peel_refs(y["l"])["name"] == "n"]
         gname = ps[1]["name"] if len(ps) > 1 else "gradient"
         sname = ps[2]["name"] if len(ps) > 2 else "sigma"
+        # the same updates written as one pass: Zip::from(&mut self.z).and(&mut self.n).and(&gradient)...for_each(|z, n, &g, ..| ..)
+        zip_replaced = None
+        for fe in [y for y in walk(fn["body"]) if y.get("k") == "MethodCall" and y["name"] in ("for_each", "par_for_each") and y["args"] and strip(y["args"][0]).get("k") == "Closure"]:
+            srcs = []
+            cur = peel_refs(fe["recv"])
+            while cur.get("k") == "MethodCall" and cur["name"] == "and" and cur["args"]:
+                srcs.insert(0, cur["args"][0])
+                cur = peel_refs(cur["recv"])
+            if cur.get("k") == "Call" and cur.get("args"):
+                srcs.insert(0, cur["args"][0])
+            clo = strip(fe["args"][0])
+            cps = [list(pat_bindings(p_)) for p_ in clo["params"]]
+            if len(srcs) != len(cps) or not srcs:
+                continue
+            role = {}
+            for src, bs_ in zip(srcs, cps):
+                s0 = peel_refs(src)
+                nm = None
+                if s0.get("k") == "Field" and peel_refs(s0["e"]).get("name") == "self":
+                    nm = "field:" + s0["name"]
+                elif s0.get("k") == "Path" and s0.get("local") in pnames:
+                    nm = pnames[s0["local"]]
+                elif s0.get("k") == "Path" and s0.get("local") in wl:
+                    nm = "weights"
+                elif s0.get("k") == "MethodCall" and s0["name"] == "get_weights":
+                    nm = "weights"
+                for b in bs_:
+                    role[b["local"]] = nm
+
+            def zmentions(e):
+                return set(role[z["local"]] for z in walk(e) if z.get("k") == "Path" and z.get("local") in role and role[z["local"]] and not role[z["local"]].startswith("field:"))
+            for y in walk(clo["body"]):
+                if y.get("k") not in ("AssignOp", "Assign"):
+                    continue
+                tgt = peel_refs(y["l"])
+                fld = role.get(tgt.get("local")) if tgt.get("k") == "Path" else None
+                if not fld or not fld.startswith("field:"):
+                    continue
+                op = y["op"] if y.get("k") == "AssignOp" else "="
+                reads_self = any(z.get("k") == "Path" and z.get("local") == tgt.get("local") for z in walk(y["r"]))
+                if op == "=" and reads_self:
+                    # `*n = *n + g * g`
+                    top = peel_refs(y["r"])
+                    op = top["op"] if top.get("k") == "Binary" and top["op"] in ("+", "-") else "="
+                if op == "=":
+                    zip_replaced = (fld[6:], y)
+                if fld == "field:z":
+                    # `*z += g - s * w` is the two documented updates at once
+                    rr = peel_refs(y["r"])
+                    if op == "+" and rr.get("k") == "Binary" and rr["op"] == "-":
+                        zs.append(("+", zmentions(rr["l"])))
+                        zs.append(("-", zmentions(rr["r"])))
+                    else:
+                        zs.append((op, zmentions(y["r"])))
+                elif fld == "field:n":
+                    yy = dict(y)
+                    ns.append((op, zmentions(y["r"]), {"r": y["r"], "ln": y.get("ln"), "k": y["k"], "l": y["l"], "op": y.get("op"), "_g": sum(1 for z in walk(y["r"]) if z.get("k") == "Path" and role.get(z.get("local")) == gname)}))
         want_z = sorted([("+", (gname,)), ("-", tuple(sorted((sname, "weights"))))])
         got_z = sorted((op, tuple(sorted(m))) for op, m in zs)
-        n_ok = len(ns) == 1 and ns[0][0] == "+" and ns[0][1] == {gname} and sum(1 for z in walk(ns[0][2]["r"]) if z.get("k") == "Path" and z.get("local") == ps[1]["local"]) == 2
-        if any(op == "=" for op, _ in zs) or any(op == "=" for op, _, _ in ns):
+        n_ok = len(ns) == 1 and ns[0][0] == "+" and ns[0][1] == {gname} and (ns[0][2].get("_g") == 2 or sum(1 for z in walk(ns[0][2]["r"]) if z.get("k") == "Path" and z.get("local") == ps[1]["local"]) == 2)
+        if zip_replaced is not None:
+            res.violate("%s : state-replaced" % key, "`%s` is assigned in the fused update instead of accumulated: from the second update on the history of squared gradients (or of z) is lost" % zip_replaced[0], fn_loc(fn, zip_replaced[1].get("ln")))
+        elif any(op == "=" for op, _ in zs) or any(op == "=" for op, _, _ in ns):
             res.violate("%s : state-replaced" % key, "z or n is assigned instead of updated: the accumulated history is lost", fn_loc(fn))
         elif got_z == want_z and n_ok:
             res.ok()
@@ -529,6 +588,88 @@ def rule_ftrl(ctx):
     return res.finish(6)
 
 
+def rule_sigma0(ctx):
+    """A coordinate that has never seen a gradient (n = 0) and sees none now (g = 0) keeps sigma = 0, z and weight unchanged:
+    the per-coordinate learning-rate term evaluated at that point is 0 in the documented form (sqrt(n + g^2) - sqrt(n)) / alpha.
+    An algebraically equivalent form may be 0/0 there.  The formula is evaluated over the abstract values {zero, positive}."""
+    res = RuleResult("R-C15-sigma0", "the per-coordinate learning-rate term of FTRL is 0 (not 0/0) for a coordinate without any gradient so far (n = 0, g = 0)")
+    F = ctx.facts()
+    fns = fns_of(F, "linfa_ftrl", "calculate_weight_in_average")
+    if not fns:
+        res.missing_anchor("linfa_ftrl::calculate_weight_in_average")
+    for fn in fns:
+        c = fn["crate"]
+        r = Render(c)
+        key = fn_key(fn)
+        res.instance(key)
+        ps = [b for p_ in fn["params"] for b in pat_bindings(p_)]
+        if len(ps) != 3:
+            res.undecided("%s : signature" % key, "expected (n, gradient, alpha) (fail closed)", fn_loc(fn))
+            continue
+        env = {ps[0]["local"]: "Z", ps[1]["local"]: "Z", ps[2]["local"]: "P"}
+        bad = []
+
+        def ev(e, depth=0):
+            e = peel_refs(e)
+            k_ = e.get("k")
+            if depth > 20:
+                return "?"
+            if k_ == "Path" and e.get("local") in env:
+                return env[e["local"]]
+            if k_ == "Lit":
+                try:
+                    v = float(str(e.get("v")).replace("_", "").rstrip("f3264"))
+                except ValueError:
+                    return "?"
+                return "Z" if v == 0 else ("P" if v > 0 else "?")
+            if k_ == "Block":
+                for st in e.get("stmts") or []:
+                    if st.get("k") == "LetStmt" and st.get("init") is not None and st["pat"].get("k") == "Bind":
+                        env[st["pat"]["local"]] = ev(st["init"], depth + 1)
+                return ev(e["e"], depth + 1) if e.get("e") is not None else "?"
+            if k_ == "Unary" and e["op"] == "-":
+                v = ev(e["e"], depth + 1)
+                return "Z" if v == "Z" else ("?" if v in ("P", "?") else v)
+            if k_ == "Binary":
+                a, b = ev(e["l"], depth + 1), ev(e["r"], depth + 1)
+                if "NAN" in (a, b):
+                    return "NAN"
+                op = e["op"]
+                if op == "+":
+                    return "Z" if (a, b) == ("Z", "Z") else ("P" if set((a, b)) <= {"Z", "P"} else "?")
+                if op == "-":
+                    return "Z" if (a, b) == ("Z", "Z") else ("P" if (a, b) == ("P", "Z") else "?")
+                if op == "*":
+                    return "Z" if "Z" in (a, b) and "?" not in (a, b) else ("P" if (a, b) == ("P", "P") else ("Z" if "Z" in (a, b) else "?"))
+                if op == "/":
+                    if b == "Z":
+                        bad.append(e)
+                        return "NAN"
+                    return "Z" if a == "Z" and b == "P" else ("P" if (a, b) == ("P", "P") else "?")
+                return "?"
+            if k_ in ("Call", "MethodCall"):
+                nm = e["name"] if k_ == "MethodCall" else (c.dfn(strip(e["f"]).get("def")) or {}).get("name")
+                arg = e["recv"] if k_ == "MethodCall" else (e["args"][0] if e.get("args") else None)
+                if nm in ("sqrt", "abs", "cbrt") and arg is not None:
+                    return ev(arg, depth + 1)
+                if nm in ("one",):
+                    return "P"
+                if nm in ("zero",):
+                    return "Z"
+                if nm in ("cast", "from") and arg is not None:
+                    return ev(arg, depth + 1)
+                return "?"
+            return "?"
+        v = ev(fn["body"])
+        if bad:
+            res.violate("%s : undefined-on-untouched-coordinate" % key, "for n = 0 and g = 0 the term divides by `%s`, which is zero there: 0/0 = NaN where the documented formula gives 0 - a feature column that has been all zero so far gets z = NaN" % r.e(bad[0]["r"])[:50], fn_loc(fn, bad[0].get("ln")))
+        elif v == "Z":
+            res.ok()
+        else:
+            res.undecided("%s : value-at-zero" % key, "the value of the term at n = 0, g = 0 was not evaluated (%s) (fail closed)" % v, fn_loc(fn))
+    return res.finish(1)
+
+
 def rule_fitcounts(ctx):
     """fit_with treats the model's cluster_count as the true cumulative number of observations per cluster (it is the
     denominator of the running mean).  What k-means `fit` stores there is therefore what it counted - not a clamped or
@@ -566,8 +707,9 @@ def rule_fitcounts(ctx):
 
 
 def rules(tier):
-    from . import carry, precision
-    return [rule_fitcounts, carry.make_fieldcopy_rule("R-C15-fieldcopy", {"linfa_bayes", "linfa_ftrl", "linfa_clustering"}, 0),
+    from . import carry, precision, layout
+    return [rule_sigma0, layout.make_rule("R-C15-memorder", "raw memory-order buffers are used by position only behind a standard-layout test", lambda f: f["d"]["krate"] in ("linfa_bayes", "linfa_ftrl"), "linfa-bayes and linfa-ftrl"),
+            rule_fitcounts, carry.make_fieldcopy_rule("R-C15-fieldcopy", {"linfa_bayes", "linfa_ftrl", "linfa_clustering"}, 0),
             rule_batch, rule_carry_state, rule_epsilon, rule_counts, rule_kmeans, rule_ftrl,
             carry.make_clone_rule("R-C15-clone", {"linfa_bayes", "linfa_ftrl"}, 6), carry.make_setter_rule("R-C15-override", {"linfa_bayes", "linfa_ftrl"}, 4),
             precision.make_rule("R-C15-precision", lambda f: f["d"]["krate"] in ("linfa_bayes", "linfa_ftrl"), 30, "linfa-bayes and linfa-ftrl"),
